@@ -28,10 +28,12 @@ def sh(cmd, **kw):
     return subprocess.run(cmd, shell=True, capture_output=True, text=True, **kw)
 
 
-def run_checks(wt, props, tier):
+def run_checks(wt, props, tier, vseed=None):
     out = {}
     for pid in props:
         env = dict(os.environ, VERIF_REPO=wt, VERIF_OUT=os.path.join(wt, "_vfout"))
+        if vseed is not None:
+            env["VERIF_SEED"] = str(vseed)
         t0 = time.time()
         r = subprocess.run([os.path.join(HERE, "check"), pid, "--tier", tier], env=env, capture_output=True, text=True)
         first = next((l.strip() for l in r.stdout.splitlines() if l.startswith("  sub=")), "")
@@ -90,6 +92,13 @@ def evaluate(a, dst, confirm):
             if r.returncode:
                 print("PATCH DOES NOT APPLY", r.stderr)
                 return res
+        if getattr(a, "seeds", None):
+            res["by_seed"] = {}
+            for vs in a.seeds.split(","):
+                r = run_checks(wt, [target], a.tier, vseed=int(vs))
+                res["by_seed"][vs] = r[target]["exit"]
+            res["checks"] = {}
+            return res
         res["checks"] = run_checks(wt, props, a.tier)
         if a.fallback and not any(v["exit"] == 1 for v in res["checks"].values()):
             extra = [p for p in a.fallback.split(",") if p not in props]
@@ -101,6 +110,11 @@ def evaluate(a, dst, confirm):
         meta["confirmation"] = {k: v for k, v in res.items() if k != "checks"}
         meta["confirmation"]["ran"] = ("fresh worktree of /repo HEAD; git apply patch.diff; demo.py before/after; "
                                        f"pytest tests -k '{DESELECT}'")
+    if res.get("by_seed"):
+        meta.setdefault("target_check_by_verif_seed", {}).update(res["by_seed"])
+        json.dump(meta, open(os.path.join(dst, "meta.json"), "w"), indent=1)
+        print("by seed:", meta["target_check_by_verif_seed"])
+        return
     det = meta.setdefault("detection", {})
     for pid, r in (res.get("checks") or {}).items():
         det[f"{pid}:{a.tier}"] = r
@@ -123,6 +137,7 @@ def main():
         q.add_argument("--tier", default="quick")
         q.add_argument("--skip-tests", action="store_true")
         q.add_argument("--fallback", help="comma separated property ids to try when the target's check does not catch it")
+        q.add_argument("--seeds", help="comma separated VERIF_SEED values: run only the target property's check at each of them")
     a = ap.parse_args()
     if a.cmd == "ingest":
         ingest(a)
